@@ -1,4 +1,4 @@
-(* C01 -- source tie of the hand-written model: the statements of the 245 functions this property's model, theorem
+(* C01 -- source tie of the hand-written model: the statements of the 249 functions this property's model, theorem
    hypotheses and harness scope rely on (Model/C01SourceShape.v; list in checks/source_pins.json) are, in the current
    sources (Gen/SourceShapes.v, regenerated on every run, local names canonical), the ones the model was validated
    against.  A change of any of these statements breaks this obligation; the check then searches the implementation
